@@ -21,6 +21,13 @@ import (
 // the complete tree is dumped after every call. The embedded template is dumped in fs.WalkDir order.
 // The test binary of cmd/hidi must be run WITHOUT flags (init() calls flag.Parse()), so TestVerif is the
 // dispatcher and is selected through $VERIF_MODE only.
+//
+// Implementation-driven crash exploration (lib/c18.py:inject_stage) uses the same mode in three invocations:
+//   setup    Runs = 0                       the trees are materialised, updateHIDIConfiguration is not called;
+//   one      Existing, Mark, Runs = 1       nothing is materialised: chdir into the existing case directory and one
+//                                           call between the marker mkdirs - the invocation that strace kills at a
+//                                           chosen system call (no output file is written then);
+//   recover  Existing, Pre, Runs = 2        the tree the killed run left is dumped (Pre), then two complete calls.
 
 type c18Node struct {
 	P string `json:"p"`           // slash-separated path relative to the case directory
@@ -35,9 +42,13 @@ type c18Case struct {
 }
 
 type c18In struct {
-	Root  string    `json:"root"`
-	Mark  bool      `json:"mark"` // bracket every upkeep call with marker mkdirs (for the strace tier)
-	Cases []c18Case `json:"cases"`
+	Root string `json:"root"`
+	Mark bool   `json:"mark"` // bracket every upkeep call with marker mkdirs (for the strace tier)
+	// Existing: the case directories already exist (an earlier invocation made them): nothing is created or written
+	// before the calls. Pre: dump the tree as found, before the first call.
+	Existing bool      `json:"existing"`
+	Pre      bool      `json:"pre"`
+	Cases    []c18Case `json:"cases"`
 }
 
 type c18Run struct {
@@ -47,9 +58,10 @@ type c18Run struct {
 }
 
 type c18Res struct {
-	ID       int      `json:"id"`
-	SetupErr string   `json:"setup_err"`
-	Runs     []c18Run `json:"runs"`
+	ID       int       `json:"id"`
+	SetupErr string    `json:"setup_err"`
+	Pre      []c18Node `json:"pre,omitempty"`
+	Runs     []c18Run  `json:"runs"`
 }
 
 type c18Out struct {
@@ -123,6 +135,10 @@ func c18Call() (res c18Run) {
 }
 
 func verifC18(t *testing.T) {
+	// keep every syscall of the code under test on one OS thread (readable strace order; strace's injection
+	// counters are per thread): locked before the first file is opened
+	runtime.LockOSThread()
+	defer runtime.UnlockOSThread()
 	var in c18In
 	c18ReadJSON(t, &in)
 	// the logger's channel has capacity 128: drain it or every log.Info blocks
@@ -137,9 +153,6 @@ func verifC18(t *testing.T) {
 		}
 	}()
 	defer close(stop)
-	// keep every syscall of the code under test on one OS thread (readable strace order)
-	runtime.LockOSThread()
-	defer runtime.UnlockOSThread()
 
 	out := c18Out{ConfDir: configDir, Results: []c18Res{}}
 	tmpl, err := c18Template()
@@ -152,11 +165,16 @@ func verifC18(t *testing.T) {
 		res := c18Res{ID: c.ID, Runs: []c18Run{}}
 		dir := filepath.Join(in.Root, fmt.Sprintf("case-%d", c.ID))
 		func() {
-			if err := os.MkdirAll(dir, 0o777); err != nil {
-				res.SetupErr = err.Error()
-				return
+			if !in.Existing {
+				if err := os.MkdirAll(dir, 0o777); err != nil {
+					res.SetupErr = err.Error()
+					return
+				}
 			}
 			for _, n := range c.Tree {
+				if in.Existing {
+					break
+				}
 				p := filepath.Join(dir, filepath.FromSlash(n.P))
 				if n.D {
 					if err := os.Mkdir(p, 0o777); err != nil {
@@ -180,6 +198,17 @@ func verifC18(t *testing.T) {
 				return
 			}
 			defer os.Chdir(home)
+			if in.Pre {
+				tree, err := c18Dump(dir)
+				if err != nil {
+					res.SetupErr = "dump: " + err.Error()
+					return
+				}
+				res.Pre = tree
+				if res.Pre == nil {
+					res.Pre = []c18Node{}
+				}
+			}
 			for r := 0; r < c.Runs; r++ {
 				if in.Mark {
 					m := filepath.Join(in.Root, fmt.Sprintf("mark-%d-%d-begin", c.ID, r))
